@@ -66,6 +66,10 @@ ACTION_GRAMMARS = (
     ('optional-around-rule', (('start', seq(('opt', C('r')), ('closure', W), ('eof',))), ('r', AS)), ('r',), 'ab', 4),
     ('rule-tried-twice', (('start', ch(seq(C('r'), T('b'), ('eof',)), seq(C('r'), T('c'), ('eof',)), seq(C('r'), ('eof',)))), ('r', AS)),
      ('r', 'start'), 'abc', 4),
+    # the vetoed rule is invoked twice at one position (the second time its failure is replayed from the memo table), then an alternative
+    # without it matches
+    ('vetoed-rule-then-fallback', (('start', ch(seq(C('r'), T('b'), ('eof',)), seq(C('r'), T('c'), ('eof',)), seq(('pat', 'a+'), ('opt', T('c')), ('eof',)))), ('r', AS)),
+     ('r',), 'abc', 4),
     ('predicate-rule', (('start', seq(C('stmt'), ('eof',))), ('stmt', ch(seq(T('a'), C('strict'), T('b')), seq(T('a'), C('strict'), T('c')), seq(T('a'), ('closure', W)))),
                         ('strict', ('void',))), ('strict', 'stmt'), 'abc', 3),
     ('named-elements', (('start', seq(('named', 'l', C('r')), ('named', 'o', ('opt', T('b'))), ('named', 'k', ('closure', C('r'))), ('eof',))), ('r', A1)),
